@@ -6,9 +6,10 @@ CONSTANT MinLens = {0, 1}
 CONSTANT Lims = {0, 1, 2}
 CONSTANT AOs = {TRUE, FALSE}
 CONSTANT MaxPending = 2
+CONSTANT MaxInter = 2
 CONSTANT Acts <- AllActs
 CONSTANT RecordReads = TRUE
-CONSTANT HitSteps = TRUE
+CONSTANT HitSteps = FALSE
 SPECIFICATION Spec
 INVARIANT BehaviourExport
 CHECK_DEADLOCK FALSE
